@@ -276,6 +276,18 @@ func craftedInputs() []epInput {
 				add(fmt.Sprintf("bmff-iloc-65535-extents-sizes-%02x", szb), append(append([]byte{}, ft...), box("meta", append(append([]byte{0, 0, 0, 0}, hdl...), il...))...))
 			}
 		}
+		// many small iloc boxes that each declare 65535 items: the item count must not drive allocation either, and the
+		// cost must not add up over repeated boxes
+		for _, nb := range []int{2, 16, 64} {
+			var ils []byte
+			for k := 0; k < nb; k++ {
+				ils = append(ils, box("iloc", []byte{0, 0, 0, 0, 0x44, 0x00, 0xff, 0xff})...)
+			}
+			hdl := box("hdlr", append(append(make([]byte, 8), []byte("pict")...), make([]byte, 13)...))
+			for _, ft := range [][]byte{ftypCrx, box("ftyp", []byte("avif\x00\x00\x00\x00mif1avif"))} {
+				add(fmt.Sprintf("bmff-%d-iloc-boxes-65535-items", nb), append(append([]byte{}, ft...), box("meta", append(append([]byte{0, 0, 0, 0}, hdl...), ils...))...))
+			}
+		}
 		hd := big("hdlr", 8<<20, []byte{0, 0, 0, 0, 0, 0, 0, 0, 'p', 'i', 'c', 't'})
 		add("bmff-meta-hdlr-declare-8MiB", append(append([]byte{}, ftypCrx...), big("meta", 8<<20+12, append([]byte{0, 0, 0, 0}, hd...))...))
 		add("bmff-ftyp-declares-16MiB", big("ftyp", 16<<20, []byte("crx \x00\x00\x00\x01crx isom")))
